@@ -372,8 +372,8 @@ def to_poly(t):
         d = _aff_as_disjoint(t)
         if d is not None:
             return d
-        # !x = -x - 1
-        if t.aux[0] == mask(w) and w > 1:
+        # !x = -x - 1: of a word and its complement, the one with the smaller constant part is the representative
+        if w > 1 and t.aux[0] > (mask(w) ^ t.aux[0]):
             lin = xor(t, const(mask(w), w))
             if lin.op != "const":
                 pl = to_poly(lin)
